@@ -553,6 +553,13 @@ type Deviation struct {
 	Delay time.Duration `json:"delay_ns"`
 }
 
+func (d *Deviation) String() string {
+	if d == nil {
+		return "none"
+	}
+	return fmt.Sprintf("%s #%d returns %v late", d.Kind, d.Index, d.Delay)
+}
+
 // SetDeviation installs d (nil: none) and resets the operation counters.
 func (w *World) SetDeviation(d *Deviation) {
 	w.mu.Lock()
@@ -650,6 +657,15 @@ func (w *World) Node(id int) *Node { return w.Nodes[id-1] }
 
 // Close tears the world down; every goroutine of the bubble must be gone afterwards.
 func (w *World) Close() {
+	w.mu.Lock()
+	d := w.dev
+	w.mu.Unlock()
+	if d != nil {
+		// a late answer may still be outstanding: let it return before the world is torn down
+		synctest.Wait()
+		time.Sleep(d.Delay + 100*time.Millisecond)
+		synctest.Wait()
+	}
 	for _, c := range w.Clients {
 		c.Drop()
 	}
